@@ -18,7 +18,7 @@ from .. import core, gen_tables
 RULE = ("pairs: EVERY ordered pair of the 221 table types x bond orders {guessed, 1, 1.5, 2} (+ explicit bond orders from a continuous range 0.1..8, bond_orders as list/tuple/array, random user bond-order "
         "rules, sets of 1-3 types in both listing orders); triples: every centre type with random ends (quick) / every "
         "ordered triple on the real code (thorough); quadruples: every centre type, every torsion class, random ends, "
-        "multiplicities 1..40 (quick) / every centre pair x end classes x multiplicities 1..9, 12, 40 (thorough); pair "
+        "multiplicities 1..40, every non-sp type against main-group partners without sp2/sp3/resonant label (the undefined/unsupported boundary, main group = s- and p-block written out in the oracle, not read from the repo) (quick) / every centre pair x end classes x multiplicities 1..9, 12, 40 (thorough); pair "
         "coefficients: every type; ORDERED call sequences with the code's default arguments whose consecutive terms have "
         "different guessed bond orders (forward and reversed), and the real assign_bond/angle/dihedral_types call order on "
         "random type graphs (every coefficient line vs. the oracle); the assign_* entry points on real Atoms objects "
@@ -41,10 +41,37 @@ def table():
     """the UFF4MOF table read from the SOURCE TEXT of the repo under test (decimal literal -> nearest double)"""
     global _T
     if _T is None:
-        t = gen_tables.read_tables()
-        rows = {k: [float(Fraction(m, 10 ** e)) for (m, e) in v] for k, v in t["uff"]}
-        _T = {"keys": [k for k, _ in t["uff"]], "rows": rows, "main": set(t["maingroup"])}
+        uff = _read_uff_rows()
+        rows = {k: [float(Fraction(m, 10 ** e)) for (m, e) in v] for k, v in uff}
+        _T = {"keys": [k for k, _ in uff], "rows": rows, "main": set(MAIN_GROUP)}
     return _T
+
+
+def _read_uff_rows():
+    """the rows of the UFF4MOF dict literal, from the source text.  Only the parameter TABLE is taken from the repo (the
+    property is stated "on that table"); the helper lists beside it are not: whatever way MAIN_GROUP_ELEMENTS is
+    spelled there (literal, comprehension, import) does not matter to the oracle, which has its own MAIN_GROUP."""
+    try:
+        return gen_tables.read_tables()["uff"]
+    except Exception:  # noqa  (some OTHER table of the repo is no longer a plain literal)
+        import ast
+        src = open(os.path.join(core.REPO, "mofun", "uff4mof.py")).read()
+        d = gen_tables._find_assign(ast.parse(src), "UFF4MOF")
+        return gen_tables._dictlit([(gen_tables._str(k), [gen_tables._dec(src, e) for e in v.elts])
+                                    for k, v in zip(d.keys, d.values)])
+
+
+# Main-group elements = the s- and p-block of the periodic table (groups 1, 2 and 13-18), written out here period by
+# period, independently of the library's MAIN_GROUP_ELEMENTS list: "no dihedrals for non main group elements" is a
+# statement about chemistry, not about whatever that list happens to contain.
+_PERIODS_SP = ["H He",
+               "Li Be B C N O F Ne",
+               "Na Mg Al Si P S Cl Ar",
+               "K Ca Ga Ge As Se Br Kr",
+               "Rb Sr In Sn Sb Te I Xe",
+               "Cs Ba Tl Pb Bi Po At Rn",
+               "Fr Ra"]
+MAIN_GROUP = frozenset(e for row in _PERIODS_SP for e in row.split())
 
 
 # --------------------------------------------------------------------------------------------- oracle: the formulas
@@ -558,6 +585,15 @@ def gen_quads(ctx, n_random, per_class):
         for _ in range(per):
             out.append(mk(c, rng.choice(keys)))
             out.append(mk(rng.choice(keys), c))
+    # the undefined / unsupported boundary, per type: with a main-group partner that is neither sp nor sp2/sp3/resonant
+    # the outcome (None vs. "don't know how to handle") is decided by whether THIS type's element is a main-group
+    # element - every non-sp type of the table is put in that position, on either side of the bond
+    for c in keys:
+        if o_hyb(c) == "1":
+            continue
+        for _ in range(max(1, per // 10)):
+            out.append(mk(c, rng.choice(P["other-main"])))
+            out.append(mk(rng.choice(P["other-main"]), c))
     # every class of centre pair
     sp2R = P["2"] + P["R"]
     combos = [("3", "3"), ("ox3", "ox3"), ("ox3", "3"), ("2R", "2R"), ("2", "3"), ("R", "3"), ("2", "ox3"), ("R", "ox3"),
